@@ -20,8 +20,15 @@ def xtStored (v : Str) : Str := if validHash v then v else v.drop 9
 /-- the info hash setter accepts … (no prefix there) -/
 def infohashAccepts (v : Str) : Bool := validHash v
 
-/-- no character that `re.IGNORECASE` folds onto an ASCII letter (U+0130, U+0131, U+017F, U+212A) -/
-def NoFold (v : Str) : Bool := v.all fun c => !isFold c
+/-- a URL is accepted iff `is_url` accepts it as given *and* with its spaces replaced by '+' (the
+    form that is stored) -/
+def urlAccepts (isUrl : Str → Bool) (v : Str) : Bool := isUrl v && isUrl (plusForSpace v)
+
+/-- what a URL list holds after an accepted assignment: the items with ' ' → '+', every item at its
+    first occurrence only -/
+def keepFirst : List Str → List Str
+  | [] => []
+  | u :: us => u :: (keepFirst us).filter (· ≠ u)
 
 def hexValD (c : Char) : Nat := (hexVal c).getD 0
 def b32ValD (c : Char) : Nat := (b32Val (asciiUpper c)).getD 0
@@ -43,27 +50,75 @@ def specAssign : HashOp → Option Str
   | .xt v => if xtAccepts v then some (xtStored v) else none
   | .infohash v => if infohashAccepts v then some v else none
 
-/-- What the property demands of a history of assignments and conversions on one object: every
-    assignment is judged on its own (accepted iff valid, else the magnet error and no change), and
-    every conversion shows the 40-digit form of the number denoted by the value accepted *last* —
-    not of any value the object held when it was converted before. -/
-def specUse (cur : HState) : List UseOp → List UseObs × HState
-  | [] => ([], cur)
+/-- `get_info()` with validation on a magnet whose hash has the 40-digit form `own`, which does
+    (`held`) or does not yet hold metadata: sources in order; a failed download or unreadable
+    data is skipped; a readable torrent with another infohash ⇒ MetainfoError; a readable torrent
+    with the same infohash is adopted (if its info section is non-empty); the search ends as soon as
+    the magnet holds metadata.  Result: (error, holds metadata afterwards, sources consulted). -/
+def specFetch (own : Str) : Bool → List Served → Nat → Option MErr × Bool × Nat
+  | held, [], k => (none, held, k)
+  | held, .connError :: rest, k => if held then (none, true, k + 1) else specFetch own held rest (k + 1)
+  | held, .unreadable :: rest, k => if held then (none, true, k + 1) else specFetch own held rest (k + 1)
+  | held, .torrent h ne :: rest, k =>
+    if h ≠ own then (some .metainfo, held, k + 1)
+    else if ne || held then (none, true, k + 1) else specFetch own held rest (k + 1)
+
+/-- What the property demands of a history of assignments, conversions and (validating) metadata
+    downloads on one object: every assignment is judged on its own (accepted iff valid, else the
+    magnet error and no change); every `torrent()` shows the 40-digit form of the number denoted by
+    the value accepted *last* — not of any value the object held when it was converted or when it
+    downloaded metadata before; metadata is adopted only from a torrent that denotes the hash held
+    at that moment and is forgotten when another hash string is assigned (interpretive choice: the
+    code also forgets it when the same number is assigned in another notation; the specification
+    follows the code there — the harness accepts both). -/
+def specUse (st : MState) : List UseOp → List UseObs × MState
+  | [] => ([], st)
   | .assign op :: ops =>
     match specAssign op with
-    | some s => let rs := specUse (some s) ops; (.assigned none :: rs.1, rs.2)
-    | none => let rs := specUse cur ops; (.assigned (some .magnet) :: rs.1, rs.2)
+    | some s =>
+      let rs := specUse { hash := some s, info := if st.hash = some s then st.info else none } ops
+      (.assigned none :: rs.1, rs.2)
+    | none => let rs := specUse st ops; (.assigned (some .magnet) :: rs.1, rs.2)
   | .convert :: ops =>
-    let rs := specUse cur ops
-    ((match cur with | some s => .converted (.ok (hexLower40 (hashVal s))) | none => .unset) :: rs.1, rs.2)
+    let rs := specUse st ops
+    ((match st.hash with
+      | some s => .converted (.ok (hexLower40 (hashVal s))) st.info.isSome
+      | none => .unset) :: rs.1, rs.2)
+  | .fetch _ served :: ops =>
+    match st.hash with
+    | none => let rs := specUse st ops; (.unset :: rs.1, rs.2)
+    | some s =>
+      let own := hexLower40 (hashVal s)
+      let r := specFetch own st.info.isSome served 0
+      let rs := specUse { st with info := if r.2.1 then some own else none } ops
+      (.fetched r.1 r.2.1 r.2.2 :: rs.1, rs.2)
 
-/-- hypothesis of `C14_convert_history`: no assigned value contains a character that
-    `re.IGNORECASE` folds (finding D14f) -/
-def useNoFold : List UseOp → Bool
+/-- hypothesis of `C14_convert_history`: every `get_info()` of the history validates (with
+    `validate=False` the caller asks for the comparison to be skipped) -/
+def useValidated : List UseOp → Bool
   | [] => true
-  | .assign (.xt v) :: ops => NoFold v && useNoFold ops
-  | .assign (.infohash v) :: ops => NoFold v && useNoFold ops
-  | .convert :: ops => useNoFold ops
+  | .fetch v _ :: ops => v && useValidated ops
+  | _ :: ops => useValidated ops
+
+/-- invariant of an object in such a history: the hash is valid and adopted metadata denotes it -/
+def StateOk (st : MState) : Prop :=
+  (∀ s, st.hash = some s → validHash s = true) ∧
+  (∀ a, st.info = some a → ∃ s, st.hash = some s ∧ a = hexLower40 (hashVal s))
+
+instance (st : MState) : Decidable (StateOk st) := by
+  unfold StateOk
+  cases st with
+  | mk hash info =>
+    cases hash with
+    | none =>
+      cases info with
+      | none => exact isTrue ⟨by simp, by simp⟩
+      | some a => exact isFalse (by simp)
+    | some s =>
+      cases info with
+      | none => exact decidable_of_iff (validHash s = true) (by simp)
+      | some a =>
+        exact decidable_of_iff (validHash s = true ∧ a = hexLower40 (hashVal s)) (by simp)
 
 /-- expected `%XX`-encoding of the 20 hash bytes in the tracker request -/
 def hashBytesEnc (n : Nat) : Str := (toDigits 256 20 n).flatMap quoteByte
